@@ -199,6 +199,116 @@ pub fn add_all(tera: &mut Tera, set: &[(String, String)]) -> Result<(), String> 
     }
 }
 
+// ------------------------------------------------------------------ registration from files
+
+/// What the harness puts at a path just before the engine reads it.
+#[derive(Clone, Debug, PartialEq)]
+pub enum FileKind {
+    /// a readable UTF-8 file with this content
+    Text(String),
+    /// nothing at that path (File::open fails)
+    Missing,
+    /// a file whose content is not UTF-8 (read_to_string fails)
+    NotUtf8,
+    /// a directory (File::open succeeds on Linux, read_to_string fails with EISDIR)
+    Dir,
+    /// the path itself is not valid UTF-8 (`path` is only a label then)
+    BadPath,
+}
+
+/// One `(path, name)` pair of an `add_template_files` call. Paths are relative to the current
+/// directory (the harness works inside its own run directory), so that with `name: None` the
+/// template is registered under a name other templates can refer to.
+#[derive(Clone, Debug, PartialEq)]
+pub struct FileEnt {
+    pub path: String,
+    pub name: Option<String>,
+    pub kind: FileKind,
+}
+
+impl FileEnt {
+    pub fn key(&self) -> &str {
+        self.name.as_deref().unwrap_or(&self.path)
+    }
+    pub fn json(&self) -> serde_json::Value {
+        let (k, content) = match &self.kind {
+            FileKind::Text(c) => ("text", Some(c.clone())),
+            FileKind::Missing => ("missing", None),
+            FileKind::NotUtf8 => ("notutf8", None),
+            FileKind::Dir => ("dir", None),
+            FileKind::BadPath => ("badpath", None),
+        };
+        json!({"path": self.path, "name": self.name, "kind": k, "content": content})
+    }
+    pub fn from_json(v: &serde_json::Value) -> FileEnt {
+        let kind = match v["kind"].as_str().unwrap_or("") {
+            "text" => FileKind::Text(v["content"].as_str().unwrap_or("").to_string()),
+            "missing" => FileKind::Missing,
+            "notutf8" => FileKind::NotUtf8,
+            "dir" => FileKind::Dir,
+            _ => FileKind::BadPath,
+        };
+        FileEnt { path: v["path"].as_str().unwrap_or("").to_string(), name: v["name"].as_str().map(|s| s.to_string()), kind }
+    }
+    /// Makes the file system say what `kind` says and returns the path to hand to the engine.
+    fn prepare(&self) -> std::path::PathBuf {
+        use std::os::unix::ffi::OsStringExt;
+        if self.kind == FileKind::BadPath {
+            return std::path::PathBuf::from(std::ffi::OsString::from_vec(b"bad\xff\xfepath.html".to_vec()));
+        }
+        let p = std::path::PathBuf::from(&self.path);
+        if let Some(d) = p.parent() {
+            if !d.as_os_str().is_empty() {
+                std::fs::create_dir_all(d).expect("mkdir for template file");
+            }
+        }
+        let _ = std::fs::remove_file(&p);
+        let _ = std::fs::remove_dir(&p);
+        match &self.kind {
+            FileKind::Text(c) => std::fs::write(&p, c).expect("write template file"),
+            FileKind::NotUtf8 => std::fs::write(&p, b"[1]\xff\xfe{{ x }}\xc3").expect("write template file"),
+            FileKind::Dir => std::fs::create_dir(&p).expect("mkdir as template file"),
+            FileKind::Missing | FileKind::BadPath => {}
+        }
+        p
+    }
+}
+
+/// `add_template_files` (or `add_template_file` for a single entry when `single_api`) on the
+/// entries; each file is put in place only when the engine's loop asks for that entry, so that
+/// two entries may use one path with different contents. Ok(()) or the error class.
+pub fn add_files(tera: &mut Tera, ents: &[FileEnt], single_api: bool) -> Result<(), String> {
+    let r = std::panic::catch_unwind(std::panic::AssertUnwindSafe(|| {
+        if single_api && ents.len() == 1 {
+            let p = ents[0].prepare();
+            tera.add_template_file(p, ents[0].name.as_deref())
+        } else {
+            tera.add_template_files(ents.iter().map(|e| (e.prepare(), e.name.clone())))
+        }
+    }));
+    match r {
+        Ok(Ok(())) => Ok(()),
+        Ok(Err(e)) => Err(err_class(&e)),
+        Err(_) => Err("panic".to_string()),
+    }
+}
+
+/// `hfile` term of Corr.CorrC10; `pool_pos` = position of the content in the case's pool
+pub fn gal_hfile(e: &FileEnt, pool_pos: Option<usize>) -> String {
+    let src = match (&e.kind, pool_pos) {
+        (FileKind::Text(_), Some(i)) => format!("HFPool {i}%nat"),
+        (FileKind::Text(_), None) => panic!("file content outside the pool"),
+        (FileKind::Missing, _) => "HFNoOpen".to_string(),
+        (FileKind::NotUtf8, _) | (FileKind::Dir, _) => "HFNoRead".to_string(),
+        (FileKind::BadPath, _) => "HFBadPath".to_string(),
+    };
+    let name = match &e.name {
+        Some(n) => format!("(Some {})", gal_name(n)),
+        None => "None".to_string(),
+    };
+    format!("{{| hf_path := {}; hf_src := {}; hf_name := {} |}}", gal_name(&e.path), src, name)
+}
+
 // ------------------------------------------------------------------ child-process renders
 
 #[derive(Clone, Debug, PartialEq)]
